@@ -53,7 +53,7 @@ PROPS = {
     'C01': dict(units=['mapper'], level='proof', trusted_base=TB_MAPPER, assumptions=AS_MAPPER, witness='mapper', rests_on=['C19']),
     'C02': dict(units=['mapper'], level='proof', trusted_base=TB_MAPPER, assumptions=AS_MAPPER, witness='mapper', rests_on=['C19', 'C01', 'C03']),
     'C03': dict(units=['mapper'], level='proof', trusted_base=TB_MAPPER, assumptions=AS_MAPPER + ['"held" is read as "considered pressed by the mapper"; for layouts without absorbing mappings and histories without release-all the universal client proves that this is exactly the set of physically held keys'], witness='mapper', rests_on=['C19']),
-    'C06': dict(units=['mapper'], level='proof', trusted_base=TB_MAPPER, assumptions=AS_MAPPER + ['ONLY the reset clause is decided (after every physical key has been released, and after release_all, nothing is considered pressed and nothing is held on the virtual keyboard); "answers every subsequent event sequence exactly as a new mapper" is a relation between two runs (the fields mapped_absorbed_keys / absorbing_trigger / repeating_trigger may keep stale values) and is not expressible as a single-run contract: NOT claimed'], witness='mapper', rests_on=['C19', 'C01']),
+    'C06': dict(units=['mapper'], level='proof', trusted_base=TB_MAPPER, assumptions=AS_MAPPER + ['ONLY the reset clause is decided (after every physical key has been released, and after release_all, nothing is considered pressed and nothing is held on the virtual keyboard); "answers every subsequent event sequence exactly as a new mapper" is a relation between two runs (the fields mapped_absorbed_keys / absorbing_trigger / repeating_trigger may keep stale values) and is not expressible as a single-run contract: NOT claimed'], witness='mapper', rests_on=['C19', 'C01'], extras=['fresh_bounded']),
     'C08': dict(units=['mapper'], level='proof', trusted_base=TB_MAPPER, assumptions=AS_MAPPER + [
                     'claimed for layouts in which every mapping with an absorbing list outputs a non-modifier key; the complementary shape is known finding D8 (known_findings.txt), replayed on every run',
                     'clause (ii) is proved for the end of the step (if the step pressed a non-modifier key, the absorbed key is not held afterwards unless a mapping in effect outputs it), not for every instant inside the step'],
@@ -67,7 +67,7 @@ PROPS = {
     'C11': dict(units=['loop'], dep_units=['mapper', 'converter'], level='proof', trusted_base=TB_LOOP, assumptions=AS_LOOP, witness='loop', rests_on=['C09']),
     'C12': dict(units=['loop'], dep_units=['mapper'], level='proof', trusted_base=TB_LOOP, assumptions=AS_LOOP, witness='loop'),
     'C20': dict(units=['loop'], level='proof', trusted_base=TB_LOOP, assumptions=AS_LOOP, witness='loop', extras=['real_driver_pipes_c20']),
-    'C14': dict(units=['converter', 'mapper', 'glue'], level='proof', trusted_base=TB_MAPPER + TB_CONV[4:], assumptions=AS_CONV + AS_MAPPER, witness='loader'),
+    'C14': dict(units=['converter', 'mapper', 'glue'], level='proof', trusted_base=TB_MAPPER + TB_CONV[4:], assumptions=AS_CONV + AS_MAPPER, witness='loader', extras=['loader_fuzz_bounded']),
     'C13': dict(units=['converter'], level='proof', trusted_base=TB_CONV + [
                     'E5 accessors: CHAR_ACCESS_MAP.get / US_KEYBOARD_LAYOUT.get are assumed to be functions of their argument (uninterpreted cam_entry / ukl_row); that these functions ARE the US-QWERTY layout is decided by the complete enumeration tables_enum (every Unicode scalar value, every row), reported as enumerative',
                     'assumed contract on <Vec<T> as Extend<&T>>::extend (appends the items the argument yields; a &Vec yields its elements in order), used for the trigger-side and output-side key lists'],
